@@ -174,6 +174,15 @@ def adhoc_state(chk, inventory):
             continue   # not reachable from parse_marker / marker & and | (C10's scope); tags have their own properties
         mod = ("dep_logic." + rel[:-3].replace("/", ".")).replace(".__init__", "")
         glob_hits, mut_hits = _scan_state(tree, cached_attrs, cached_funcs)
+        kept = []
+        for q, name, node in glob_hits:
+            outer = q.split(".")[0]
+            if _import_time_only(chk, tree, outer):
+                chk.notes.append(f"R10.5: {mod}:{q} fills `{name}`, but `{outer}` is only used as a decorator / from module top level: the table is "
+                                 f"complete when the import finishes and is not written at call time")
+            else:
+                kept.append((q, name, node))
+        glob_hits = kept
         for q, name, node in glob_hits:
             chk.fail("R10.5", f"{mod}:{q}:module-state:{name}",
                      f"{q} writes the module-level container `{name}` at call time (`{norm(ast.unparse(node))[:80]}`): results can depend on earlier calls "
@@ -184,6 +193,35 @@ def adhoc_state(chk, inventory):
     chk.ok("R10.5", key="scan")
     chk.instance("R10.6")
     chk.ok("R10.6", key="scan")
+
+
+def _import_time_only(chk, tree, fname):
+    """Is the module-level function `fname` referenced only where Python evaluates it while importing the module — in decorator
+    expressions and in top-level statements outside any def — and nowhere else in the package?"""
+    if not any(isinstance(st, ast.FunctionDef) and st.name == fname for st in tree.body):
+        return False
+    for rel2, tree2 in iter_sources(chk):
+        if tree2 is tree:
+            continue
+        for n in ast.walk(tree2):
+            if isinstance(n, ast.ImportFrom) and any(a.name == fname for a in n.names):
+                return False
+            if isinstance(n, ast.Attribute) and n.attr == fname:
+                return False
+    allowed = set()
+    for n in ast.walk(tree):
+        if isinstance(n, (ast.FunctionDef, ast.AsyncFunctionDef, ast.ClassDef)):
+            for d in n.decorator_list:
+                allowed.update(id(x) for x in ast.walk(d))
+    for st in tree.body:
+        if not isinstance(st, (ast.FunctionDef, ast.AsyncFunctionDef, ast.ClassDef)):
+            allowed.update(id(x) for x in ast.walk(st))
+        elif isinstance(st, ast.ClassDef):
+            for b in st.body:
+                if not isinstance(b, (ast.FunctionDef, ast.AsyncFunctionDef)):
+                    allowed.update(id(x) for x in ast.walk(b))
+    uses = [n for n in ast.walk(tree) if isinstance(n, ast.Name) and n.id == fname and isinstance(n.ctx, ast.Load)]
+    return bool(uses) and all(id(n) in allowed for n in uses)
 
 
 def _scan_state(tree, cached_attrs, cached_funcs):
